@@ -11,23 +11,11 @@
 (* would take the total above the cap is not delivered: the rest of the    *)
 (* body is drained and the request is refused.                             *)
 (***************************************************************************)
-EXTENDS Naturals, Sequences, FiniteSets, TLC
+EXTENDS BodyLimitCore, FiniteSets, TLC
 
 CONSTANTS MaxCap,      \* caps 0..MaxCap
           MaxTotal,    \* largest total body length
           MaxFrames    \* longest frame sequence
-
-VARIABLES cap,         \* the effective limit for this request
-          pending,     \* frames not yet read: <<[k |-> "data", n |-> len] | [k |-> "trailers"]>>
-          bytesRead,   \* running total of delivered data
-          delivered,   \* sequence of delivered chunk lengths
-          drained,     \* number of frames consumed by the drain after an overflow
-          phase        \* "reading" | "rejected" | "done"
-
-vars == <<cap, pending, bytesRead, delivered, drained, phase>>
-
-Data(n) == [k |-> "data", n |-> n]
-Trailers == [k |-> "trailers"]
 
 RECURSIVE SumData(_)
 SumData(fs) == IF fs = <<>> THEN 0
@@ -38,11 +26,6 @@ Sum(s) == IF s = <<>> THEN 0 ELSE Head(s) + Sum(Tail(s))
 FrameAlphabet == {Data(n) : n \in 0..MaxTotal} \cup {Trailers}
 Bodies == {fs \in UNION {[1..k -> FrameAlphabet] : k \in 0..MaxFrames} : SumData(fs) <= MaxTotal}
 
-\* effective limit: the endpoint's own override, else the server default
-\* (NoOverride stands for "the endpoint does not override the limit")
-NoOverride == 0 - 1
-EffCap(override, default) == IF override = NoOverride THEN default ELSE override
-
 Init ==
   /\ cap \in 0..MaxCap
   /\ pending \in Bodies
@@ -51,47 +34,6 @@ Init ==
   /\ drained = 0
   /\ phase = "reading"
 
-\* Core steps on the reader's own state, parametrised by the length of the
-\* arriving data frame (the trace specification binds n to the logged length).
-FrameN(n) ==
-  /\ phase = "reading"
-  /\ bytesRead + n <= cap
-  /\ delivered' = Append(delivered, n)
-  /\ bytesRead' = bytesRead + n
-  /\ UNCHANGED <<cap, phase>>
-
-OverflowN(n) ==
-  /\ phase = "reading"
-  /\ bytesRead + n > cap
-  /\ phase' = "rejected"
-  /\ UNCHANGED <<cap, bytesRead, delivered>>
-
-\* a data frame that fits is delivered to the consumer
-Frame ==
-  /\ pending # <<>> /\ Head(pending).k = "data"
-  /\ FrameN(Head(pending).n)
-  /\ pending' = Tail(pending)
-  /\ UNCHANGED drained
-
-\* trailer frames are skipped
-SkipTrailers ==
-  /\ phase = "reading" /\ pending # <<>> /\ Head(pending).k = "trailers"
-  /\ pending' = Tail(pending)
-  /\ UNCHANGED <<cap, bytesRead, delivered, drained, phase>>
-
-\* a data frame that does not fit: drain the rest, refuse
-Overflow ==
-  /\ pending # <<>> /\ Head(pending).k = "data"
-  /\ OverflowN(Head(pending).n)
-  /\ drained' = Len(pending) - 1
-  /\ pending' = <<>>
-
-End ==
-  /\ phase = "reading" /\ pending = <<>>
-  /\ phase' = "done"
-  /\ UNCHANGED <<cap, pending, bytesRead, delivered, drained>>
-
-Next == Frame \/ SkipTrailers \/ Overflow \/ End
 Spec == Init /\ [][Next]_vars /\ WF_vars(Next)
 
 \* ---- C11 ------------------------------------------------------------------
